@@ -4,6 +4,7 @@ import (
 	"errors"
 	"fmt"
 	"reflect"
+	"strings"
 	"sync"
 
 	"github.com/junioryono/godi/v4"
@@ -113,7 +114,8 @@ func poCtorOut() poOut       { a, b := poMake(); return poOut{A: a, B: b} }
 
 // RunPartialOutputs: forms x lifetimes; prop selects which findings are reported.
 func RunPartialOutputs(c *eng.Ctx, prop string, next func() (int, bool)) {
-	for _, form := range []string{"multi-return", "out-struct", "multi-return:retry-returns-one-object-twice", "out-struct:retry-returns-one-object-twice"} {
+	for _, form := range []string{"multi-return", "out-struct", "multi-return:retry-returns-one-object-twice", "out-struct:retry-returns-one-object-twice",
+		"multi-return:nil-output-requested-first", "out-struct:nil-output-requested-first"} {
 		for _, life := range []godi.Lifetime{godi.Scoped, godi.Singleton, godi.Transient} {
 			idx, mine := next()
 			if !mine {
@@ -129,7 +131,14 @@ func RunPartialOutputs(c *eng.Ctx, prop string, next func() (int, bool)) {
 				for _, f := range poCase(form, life) {
 					isC10 := f.Clause == "never-closed" || f.Clause == "closed-twice"
 					isC07 := f.Clause == "captive-dependency-accepted"
-					if (prop == "C10") != isC10 || (prop == "C07") != isC07 || reported[f.Clause] {
+					if prop == "C15" {
+						// "a failed resolution ... leaves only the services that were successfully
+						// constructed on the way (still owned and later disposed by the scope)"
+						if f.Clause != "never-closed" || reported[f.Clause] {
+							continue
+						}
+						f.Clause = "survivor-never-closed"
+					} else if (prop == "C10") != isC10 || (prop == "C07") != isC07 || reported[f.Clause] {
 						continue
 					}
 					reported[f.Clause] = true
@@ -160,10 +169,11 @@ func poCase(form string, life godi.Lifetime) (fs []Finding) {
 	coll := godi.NewCollection()
 	var err error
 	same := false
+	nilFirst := strings.HasSuffix(form, ":nil-output-requested-first")
 	switch form {
-	case "multi-return":
+	case "multi-return", "multi-return:nil-output-requested-first":
 		err = eqAdd(coll, life, poCtorMR)
-	case "out-struct":
+	case "out-struct", "out-struct:nil-output-requested-first":
 		err = eqAdd(coll, life, poCtorOut)
 	case "multi-return:retry-returns-one-object-twice":
 		same = true
@@ -197,6 +207,11 @@ func poCase(form string, life godi.Lifetime) (fs []Finding) {
 				}
 				_ = s.Close()
 				continue
+			}
+			if nilFirst {
+				// the output that the first invocation leaves nil is asked for first: the
+				// resolution fails, the B of that invocation exists and belongs to the scope
+				_, _ = godi.Resolve[*poA](s)
 			}
 			b1, e1 := godi.Resolve[*poB](s)
 			_, _ = godi.Resolve[*poA](s) // may run the constructor again
